@@ -9,6 +9,8 @@
  *   IOFAULT_SCHED=k:kind,k+:kind    kind = enospc | eacces | eio | e<errno> | short<m>
  *                                   "k+" = call k and every later one; first match wins
  *   IOFAULT_LOG=/abs/file           one line per counted call (outside the prefix)
+ *   IOFAULT_TIME_SHIFT=<seconds>    time(), gettimeofday(), clock_gettime(CLOCK_REALTIME) report a wall clock
+ *                                   shifted by that many seconds (determinism: output must not depend on the date)
  *
  * A failed call returns -1 / NULL with errno set and does nothing (a failed
  * close/fclose still releases the descriptor, as close(2) does).  short<m> makes a
@@ -34,6 +36,8 @@
 #include <sys/stat.h>
 #include <sys/types.h>
 #include <sys/uio.h>
+#include <sys/time.h>
+#include <time.h>
 #include <unistd.h>
 
 #define MAXFD 4096
@@ -607,5 +611,46 @@ int rename(const char* from, const char* to)
     }
     r = real_rename(from, to);
     logcall(k, "rename", to, -1, 0, r ? errno : 0);
+    return r;
+}
+
+
+/* ---- wall-clock shift (determinism runs) ---- */
+static long long time_shift(void)
+{
+    const char* e = getenv("IOFAULT_TIME_SHIFT");
+    return e ? atoll(e) : 0;
+}
+
+time_t time(time_t* t)
+{
+    static time_t (*real_time)(time_t*) = NULL;
+    if(!real_time)
+        real_time = dlsym(RTLD_NEXT, "time");
+    time_t v = real_time(NULL) + (time_t)time_shift();
+    if(t)
+        *t = v;
+    return v;
+}
+
+int gettimeofday(struct timeval* tv, void* tz)
+{
+    static int (*real_gtod)(struct timeval*, void*) = NULL;
+    if(!real_gtod)
+        real_gtod = dlsym(RTLD_NEXT, "gettimeofday");
+    int r = real_gtod(tv, tz);
+    if(r == 0 && tv)
+        tv->tv_sec += (time_t)time_shift();
+    return r;
+}
+
+int clock_gettime(clockid_t id, struct timespec* ts)
+{
+    static int (*real_cgt)(clockid_t, struct timespec*) = NULL;
+    if(!real_cgt)
+        real_cgt = dlsym(RTLD_NEXT, "clock_gettime");
+    int r = real_cgt(id, ts);
+    if(r == 0 && ts && id == CLOCK_REALTIME)
+        ts->tv_sec += (time_t)time_shift();
     return r;
 }
